@@ -21,15 +21,19 @@ Section Oracle.
   Notation FILE := (FILE show_num show_inum).
   Notation wfacts := (wfacts printable iprintable).
 
-  Lemma facts c ut ua : wdom c ut ua = true -> wfacts c ut ua.
+  (* the current writer replaces the line feeds of the transliterations by blanks (one_line); every theorem below is
+     the corresponding theorem of Proofs/OsuWrite.v at the transliterations (one_line ut), (one_line ua) *)
+  Lemma facts c ut ua : wdom c ut ua = true -> wfacts c (one_line ut) (one_line ua).
   Proof. apply wdom_facts. Qed.
+  Lemma written_is c ut ua : wdom c ut ua = true -> written c ut ua = Some (FILE c (one_line ut) (one_line ua)).
+  Proof. intro D. rewrite written_one_line. eapply written_file; eauto using facts. Qed.
 
   (* write_wf *)
   Theorem osu_write_wf c ut ua : wdom c ut ua = true ->
     exists text, written c ut ua = Some text /\ wf_osu_text text = true.
   Proof.
-    intro D. pose proof (facts _ _ _ D) as W. exists (FILE c ut ua). split.
-    - eapply written_file; eauto.
+    intro D. pose proof (facts _ _ _ D) as W. exists (FILE c (one_line ut) (one_line ua)). split.
+    - apply written_is; exact D.
     - eapply write_wf; eauto.
   Qed.
 
@@ -40,9 +44,10 @@ Section Oracle.
                    all_present d = true /\ denotes 0 d (written_chart c ut ua) = true /\
                    write_specb 0 c ut ua text = true.
   Proof.
-    intro D. pose proof (facts _ _ _ D) as W. exists (FILE c ut ua), (den_of c ut ua).
-    destruct (write_denotes _ _ c ut ua W) as [A B].
-    split; [eapply written_file; eauto|]. split; [eapply denote_written; eauto|].
+    intro D. pose proof (facts _ _ _ D) as W.
+    exists (FILE c (one_line ut) (one_line ua)), (den_of c (one_line ut) (one_line ua)).
+    destruct (write_denotes _ _ c _ _ W) as [A B].
+    split; [apply written_is; exact D|]. split; [eapply denote_written; eauto|].
     split; [exact A|]. split; [exact B|]. eapply write_spec; eauto.
   Qed.
 
@@ -50,12 +55,12 @@ Section Oracle.
      the chart with times truncated toward zero, rows in written order, numbers in lowest terms *)
   Theorem osu_read_after_write c ut ua : wdom c ut ua = true ->
     exists text, written c ut ua = Some text /\ read_domain text = true /\
-                 osu_read text = Some (canon c ut ua) /\
-                 denotes 0 (den_of c ut ua) (written_chart c ut ua) = true /\
-                 realize (den_of c ut ua) = canon c ut ua.
+                 osu_read text = Some (canon c (one_line ut) (one_line ua)) /\
+                 denotes 0 (den_of c (one_line ut) (one_line ua)) (written_chart c ut ua) = true /\
+                 realize (den_of c (one_line ut) (one_line ua)) = canon c (one_line ut) (one_line ua).
   Proof.
-    intro D. pose proof (facts _ _ _ D) as W. exists (FILE c ut ua).
-    split; [eapply written_file; eauto|].
+    intro D. pose proof (facts _ _ _ D) as W. exists (FILE c (one_line ut) (one_line ua)).
+    split; [apply written_is; exact D|].
     split; [eapply written_in_read_domain; eauto|].
     split; [eapply read_after_write; eauto|].
     split; [eapply write_denotes; eauto|].
@@ -77,16 +82,20 @@ Section Oracle.
                   wf_osu_text g2 = true /\ same_denotation 0 g1 g2 = true /\
                   regen_with g2 = Some g2.
   Proof.
-    intro D. pose proof (facts _ _ _ D) as W.
-    destruct (generation_stable show_num show_inum printable iprintable show_num_reads show_inum_reads printable_ext iprintable_ext c ut ua W)
+    intro D. pose proof (facts _ _ _ D) as W. set (ut' := one_line ut) in *. set (ua' := one_line ua) in *.
+    destruct (generation_stable show_num show_inum printable iprintable show_num_reads show_inum_reads printable_ext iprintable_ext c ut' ua' W)
       as [R1 [W2 [WF2 [SD [R2 [C3 G3]]]]]].
     assert (K: kinds_ok key_table (c_meta c) = true) by (eapply wf_kinds; eauto).
-    destruct (canon_title c ut ua K) as [T1 T2].
-    exists (FILE c ut ua), (FILE (canon c ut ua) (strip ut) (strip ua)).
-    split; [eapply written_file; eauto|].
-    split; [unfold regen_with; rewrite R1, T1, T2; exact W2|].
+    destruct (canon_title c ut' ua' K) as [T1 T2].
+    assert (N1: one_line (strip ut') = strip ut').
+    { apply one_line_id. intro I. apply in_strip in I. exact (one_line_no_lf ut I). }
+    assert (N2: one_line (strip ua') = strip ua').
+    { apply one_line_id. intro I. apply in_strip in I. exact (one_line_no_lf ua I). }
+    exists (FILE c ut' ua'), (FILE (canon c ut' ua') (strip ut') (strip ua')).
+    split; [apply written_is; exact D|].
+    split; [unfold regen_with; rewrite R1, T1, T2, written_one_line, N1, N2; exact W2|].
     split; [exact WF2|]. split; [exact SD|].
-    unfold regen_with. rewrite R2, C3, T1, T2. exact W2.
+    unfold regen_with. rewrite R2, C3, T1, T2, written_one_line, N1, N2. exact W2.
   Qed.
 End Oracle.
 
@@ -133,8 +142,9 @@ Theorem osu_write_denotes_dec6 c ut ua : wdom6 c ut ua = true ->
                  all_present d = true /\ denotes 0 d (written_chart c ut ua) = true /\ write_specb 0 c ut ua text = true.
 Proof. exact (osu_write_denotes show_dec6 show_intq dec6_printable any_q show_dec6_reads show_intq_reads c ut ua). Qed.
 Theorem osu_read_after_write_dec6 c ut ua : wdom6 c ut ua = true ->
-  exists text, written6 c ut ua = Some text /\ read_domain text = true /\ osu_read text = Some (canon c ut ua) /\
-               denotes 0 (den_of c ut ua) (written_chart c ut ua) = true /\ realize (den_of c ut ua) = canon c ut ua.
+  exists text, written6 c ut ua = Some text /\ read_domain text = true /\ osu_read text = Some (canon c (one_line ut) (one_line ua)) /\
+               denotes 0 (den_of c (one_line ut) (one_line ua)) (written_chart c ut ua) = true /\
+               realize (den_of c (one_line ut) (one_line ua)) = canon c (one_line ut) (one_line ua).
 Proof. exact (osu_read_after_write show_dec6 show_intq dec6_printable any_q show_dec6_reads show_intq_reads c ut ua). Qed.
 Theorem osu_generation_stable_dec6 c ut ua : wdom6 c ut ua = true ->
   exists g1 g2, written6 c ut ua = Some g1 /\ regen6 g1 = Some g2 /\ wf_osu_text g2 = true /\
@@ -183,16 +193,30 @@ Example example_chart_in_domain :
   end.
 Proof. vm_compute. repeat split; reflexivity. Qed.
 
-(* ================================================================== the refuted corner of the write direction
-   unidecode maps U+2028 / U+2029 to line feeds: a Title containing one is written on two lines; the chart
-   satisfies the runner's wf_chart, the written text does not denote it (Title is read back as "a") *)
+(* ================================================================== the former defect of the write direction
+   (fixed in repo commit fde22cd).  unidecode maps U+2028 / U+2029 to line feeds: the OLD writer wrote such a
+   Title on two lines; the chart satisfies the runner's wf_chart, yet the text written by the old writer does not
+   denote it (Title is read back as "x", and with this witness everything after the title is lost).  The current
+   writer replaces the line feed by a blank: the same witness is written on one line and read back whole. *)
+Definition written6_OLD := written_raw show_dec6 show_intq.
 Definition linefeed_chart : chart :=
-  mkChart (set_nth meta_default 14 (MStr [97; 8232; 98])) [] [] [] [] [] [].
-Theorem write_title_linefeed_refuted :
+  mkChart (set_nth (set_nth meta_default 14 (MStr (120 :: 8232 :: t "[TimingPoints]"))) 15 (MStr (t "u"))) [] [] [] [] [] [].
+Definition linefeed_ut : text := 120 :: 10 :: t "[TimingPoints]".
+Theorem write_title_linefeed_OLD_refuted :
   wf_chart linefeed_chart = true /\ kinds_ok key_table (c_meta linefeed_chart) = true /\
-  match written6 linefeed_chart [97; 10; 98] [] with
-  | Some text => write_specb 0 linefeed_chart [97; 10; 98] [] text = false /\
-                 option_map (fun c => meta_str (c_meta c) IX_TITLE) (osu_read text) = Some [97]
+  match written6_OLD linefeed_chart linefeed_ut [] with
+  | Some text => (wf_osu_text text && match osu_denote text with
+                                      | Some d => denotes 0 d (written_chart_raw linefeed_chart linefeed_ut []) | None => false end) = false /\
+                 option_map (fun c => (meta_str (c_meta c) IX_TITLE, meta_str (c_meta c) 15)) (osu_read text) = Some ([120], [])
+  | None => False
+  end.
+Proof. vm_compute. repeat split; reflexivity. Qed.
+Theorem write_title_linefeed_current :
+  wdom6 linefeed_chart linefeed_ut [] = true /\
+  match written6 linefeed_chart linefeed_ut [] with
+  | Some text => write_specb 0 linefeed_chart linefeed_ut [] text = true /\
+                 option_map (fun c => (meta_str (c_meta c) IX_TITLE, meta_str (c_meta c) 15)) (osu_read text)
+                 = Some (t "x [TimingPoints]", t "u")
   | None => False
   end.
 Proof. vm_compute. repeat split; reflexivity. Qed.
